@@ -321,6 +321,11 @@ func dischargeOnce(obls []*Obl, timeoutS int, workers int) (disagreements int) {
 	if slow < 2 {
 		slow = 2
 	}
+	// the thorough tier (120 s) gives every attempt three times the quick budget
+	scale := 1
+	if timeoutS >= 100 {
+		scale = 3
+	}
 	runPool(pending, slow, func(i int) {
 		o := obls[i]
 		tmo := timeoutS
@@ -332,7 +337,7 @@ func dischargeOnce(obls []*Obl, timeoutS int, workers int) (disagreements int) {
 			// definitional cone (sound: hypotheses are only dropped)
 			o4 := *o
 			o4.Lean = true
-			g, _ := decideWith(pickSolvers("z3-new", "cvc5"), dir, i+4000000, o4.Query(false), 10, false)
+			g, _ := decideWith(pickSolvers("z3-new", "cvc5"), dir, i+4000000, o4.Query(false), 12*scale, false)
 			if g.status == "unsat" {
 				o.Result, o.Solver, o.TimeS = "unsat", g.solver+"(lean)", g.secs
 				o.provedQuery = o4.Query(false)
@@ -346,7 +351,7 @@ func dischargeOnce(obls []*Obl, timeoutS int, workers int) (disagreements int) {
 			// for proving, and quantifier-free queries are decided quickly
 			o2 := *o
 			o2.DropQuantified = true
-			g, _ := decideWith(pickSolvers("z3-new", "z3-new-int", "cvc5"), dir, i+2000000, o2.Query(false), 40, false)
+			g, _ := decideWith(pickSolvers("z3-new", "z3-new-int", "cvc5"), dir, i+2000000, o2.Query(false), 40*scale, false)
 			if g.status == "unsat" {
 				o.Result, o.Solver, o.TimeS = "unsat", g.solver+"(ground)", g.secs
 				o.provedQuery = o2.Query(false)
@@ -358,7 +363,7 @@ func dischargeOnce(obls []*Obl, timeoutS int, workers int) (disagreements int) {
 			// lambda terms for z3, focused on the relevant quantified hypotheses
 			o5 := *o
 			o5.Lambda, o5.Focus = true, true
-			g, _ := decideWith(pickSolvers("z3-new", "z3"), dir, i+5000000, o5.Query(false), 20, false)
+			g, _ := decideWith(pickSolvers("z3-new", "z3"), dir, i+5000000, o5.Query(false), 20*scale, false)
 			if g.status == "unsat" {
 				o.Result, o.Solver, o.TimeS = "unsat", g.solver+"(lambda)", g.secs
 				o.provedQuery = o5.Query(false)
@@ -371,7 +376,7 @@ func dischargeOnce(obls []*Obl, timeoutS int, workers int) (disagreements int) {
 			// another mutex, make the solvers wander)
 			o3 := *o
 			o3.Focus = true
-			g, _ := decideWith(pickSolvers("z3-new", "cvc5", "z3"), dir, i+3000000, o3.Query(false), 15, false)
+			g, _ := decideWith(pickSolvers("z3-new", "cvc5", "z3"), dir, i+3000000, o3.Query(false), 30*scale, false)
 			if g.status == "unsat" {
 				o.Result, o.Solver, o.TimeS = "unsat", g.solver+"(focused)", g.secs
 				o.provedQuery = o3.Query(false)
